@@ -36,6 +36,14 @@ func runDead(rc *core.RunCtx) {
 	const own = "C09"
 	setKnobs(rc)
 	g := simrt.G()
+	if g.Bool(0.5) {
+		// small default inboxes: the event stream's and the monitors' ring
+		// buffers grow and wrap under a handful of events
+		sz := []int64{1, 2, 3, 5}[g.IntN(4)]
+		if simrt.SetKnob("actor.defaultInboxSize", sz) {
+			rc.Scen("default inbox size %d", sz)
+		}
+	}
 	env := NewEnv(rc)
 	nlive := g.Range(1, 2)
 	ndead := g.Pick(3, 3, 1)
@@ -137,6 +145,36 @@ func runDead(rc *core.RunCtx) {
 		rc.Scen("client c%d: %s", c, sb.String())
 	}
 	rc.Scen("live monitors=%d stopped-but-subscribed monitors=%d", nlive, ndead)
+	// an actor whose shutdown takes a while, stopped by several callers at once;
+	// each of them sends to it as soon as its own Stop/Poison context is done:
+	// by then the actor counts as stopped and the send must dead-letter
+	nstoppers, stoppersDone := 0, 0
+	if g.Bool(0.4) {
+		slow := &Spec{Kind: "act", ID: "slow", MaxRestarts: 1, InboxSize: 4, SlowStopped: g.Range(1, 6), PanicInit: map[int]bool{}, PanicStarted: map[int]bool{}, PanicStopped: map[int]bool{}}
+		env.Spawn(slow)
+		nstoppers = g.Range(2, 3)
+		rc.Scen("%d concurrent stoppers of act/slow (Stopped handler yields %d times), each sends after its context is done", nstoppers, slow.SlowStopped)
+		for k := 0; k < nstoppers; k++ {
+			k := k
+			poison := g.Bool(0.5)
+			nid++
+			s := dlSend{id: nid, kind: 2, target: actor.NewPID("local", "act/slow"), payload: plainMsg{nid, "after-stop"}}
+			all = append(all, s)
+			simrt.Go(fmt.Sprintf("stopper%d", k), func() {
+				for i := simrt.IntN(4); i > 0; i-- {
+					simrt.Yield(simrt.OpUser)
+				}
+				if poison {
+					simrt.Recv(env.E.Poison(s.target).Done())
+				} else {
+					simrt.Recv(env.E.Stop(s.target).Done())
+				}
+				simrt.Ev("send %s", s)
+				env.E.Send(s.target, s.payload)
+				stoppersDone++
+			})
+		}
+	}
 	finished := 0
 	for c := range scripts {
 		c := c
@@ -155,6 +193,10 @@ func runDead(rc *core.RunCtx) {
 	simrt.WaitQuiet(time.Hour)
 	if finished != nclients {
 		rc.Violate2(own,"send-blocked", "%d of %d sender tasks finished; blocked: %v", finished, nclients, simrt.BlockedTasks())
+	}
+	if stoppersDone != nstoppers {
+		rc.Block("%d of %d stop callers returned (C07)", stoppersDone, nstoppers)
+		return
 	}
 	for _, m := range live {
 		evs := m.Events[baseline[m]:]
